@@ -36,6 +36,9 @@ try:
         res["demo_without_patch"] = "PASS" if ("ok " in o0 and "FAIL" not in o0) else "FAIL:\n" + o0[-600:]
         os.remove(demo_dst)
     rc, out = sh("git apply --whitespace=nowarn %s" % os.path.join(src, "patch.diff"), cwd=wt)
+    if rc != 0:  # the patch was made against an earlier HEAD: let git merge it
+        rc, out = sh("git apply --3way --whitespace=nowarn %s && git reset -q" % os.path.join(src, "patch.diff"), cwd=wt)
+        res["applied_3way"] = rc == 0
     res["applies"] = rc == 0
     if rc != 0:
         res["apply_error"] = out[-500:]
